@@ -27,6 +27,23 @@ pub struct Ctl {
     pub sticky: AtomicU64,
     /// number of flush calls still to succeed before one fails; negative = none armed
     pub fail_flush_in: AtomicI64,
+    /// the in-repo function that was issuing storage calls when the budget ran out (first hit only)
+    pub budget_hit_frame: std::sync::Mutex<Option<String>>,
+}
+
+/// first frame of the current backtrace that belongs to agdb but is not the storage-data layer itself
+pub fn spinning_frame() -> String {
+    let bt = std::backtrace::Backtrace::force_capture().to_string();
+    for line in bt.lines() {
+        let l = line.trim();
+        let Some((_, f)) = l.split_once(": ") else { continue };
+        if f.contains("agdb::") && !f.contains("vcore::") && !f.contains("StorageData") && !f.contains("::file_storage::") && !f.contains("::memory_storage::") && !f.contains("::any_storage::") {
+            // strip the hash suffix and generic noise
+            let f = f.rsplit_once("::h").map(|x| x.0).unwrap_or(f);
+            return f.to_string();
+        }
+    }
+    "unknown".to_string()
 }
 
 impl Ctl {
@@ -59,7 +76,11 @@ impl Ctl {
     fn over_budget(&self) -> bool {
         let b = self.budget.load(Ordering::Relaxed);
         if b != 0 && self.steps() > b {
-            self.budget_hit.fetch_add(1, Ordering::Relaxed);
+            if self.budget_hit.fetch_add(1, Ordering::Relaxed) == 0 {
+                if let Ok(mut f) = self.budget_hit_frame.lock() {
+                    *f = Some(spinning_frame());
+                }
+            }
             true
         } else {
             false
